@@ -388,7 +388,11 @@ class Tracker:
 
         matching_method = self._track_matching_methods[self.track_matching_method]
 
-        row_inds, col_inds = matching_method(cost_matrix)
+        # Tracks that have no candidate left in the window have an all-inf column; they
+        # cannot be matched and would make the assignment problem infeasible.
+        valid_cols = np.where(~np.all(np.isinf(cost_matrix), axis=0))[0]
+        row_inds, col_inds = matching_method(cost_matrix[:, valid_cols])
+        col_inds = [valid_cols[col] for col in col_inds]
         tracking_scores = [
             -cost_matrix[row, col] for row, col in zip(row_inds, col_inds)
         ]
